@@ -655,3 +655,10 @@ package logql
 //@   loop 0 invariant forall(0, len(df.Labels), func(k int) bool { return tokType(p, old(p.pos)+2*k) == lexer.Ident })
 //@   loop 0 invariant forall(0, len(df.Labels), func(k int) bool { return df.Labels[k] == Label(tokText(p, old(p.pos)+2*k)) })
 //@   loop 0 invariant forall(0, len(df.Labels), func(k int) bool { return tokType(p, old(p.pos)+1+2*k) == lexer.Comma })
+
+//@ scope label.go
+
+// Frame only: validation reads its argument.
+//@ func IsValidLabel
+//@   trusted
+//@   modifies nothing
